@@ -499,7 +499,11 @@ def run(chk):
 
     # ---- lists ------------------------------------------------------------------------------------
     lp = list_chain_programs(2 if quick else 3)
-    louts, st = evaluate(lp, "c34L")
+    sp = pack(scalar_bindings(1 if quick else 2), [], "scalar")
+    up = pack(func_bindings(2 if quick else 3), [d for _, d in FUNCS], "func")
+    cp = pack(choice_bindings(), [], "choice")
+    # all families go through the engine together (fewer sequential compile rounds)
+    louts, st = evaluate(lp + sp + up + cp, "c34A")
     engine["compiles"] += st["compiles"]
     engine["runs"] += st["runs"]
     probes = []
@@ -608,15 +612,8 @@ def run(chk):
                       f"`{b.text}` is accepted by the checker but the list has {b.info['n']} elements at run time (inferred length {b.info['n_inferred']}): {o.get('exc')}")
 
     # ---- scalars, functions, choices ----------------------------------------------------------------
-    sp = pack(scalar_bindings(1 if quick else 2), [], "scalar")
-    up = pack(func_bindings(2 if quick else 3), [d for _, d in FUNCS], "func")
-    cp = pack(choice_bindings(), [], "choice")
-    for progs, tag in ((sp, "c34N"), (up, "c34U"), (cp, "c34C")):
-        outs, st = evaluate(progs, tag)
-        engine["compiles"] += st["compiles"]
-        engine["runs"] += st["runs"]
-        for p in progs:
-            account(p, outs[p.pid])
+    for p in sp + up + cp:
+        account(p, louts[p.pid])
 
     # ---- report membership failures with domination ---------------------------------------------------
     dominated = 0
